@@ -23,6 +23,7 @@ const preludeBody = `(declare-datatypes ((Path 0)) (((PNil) (PFld (pfp Path) (pf
 (declare-datatypes ((Iface 0)) (((mkiface (ityp Int) (ival Ptr)))))
 (define-fun niliface () Iface (mkiface 0 nilptr))
 (declare-fun tyof (Int Path) Int)
+(declare-fun scalarcell (Int) Bool)
 (declare-fun eidx (Int Int) Int)
 (assert (forall ((o Int) (i Int)) (! (= (eidx o i) (+ o i)) :pattern ((eidx o i)))))
 (declare-sort Str 0)
